@@ -20,6 +20,14 @@ def judge(ctx, tree, expr, impl, model, stats, from_corpus=False):
     dom, why = hlgen.in_domain(tree) if tree is not None else (False, "raw")
     spec = "OK " + hexlist(hlgen.denote(tree)) if dom else None
     bad = None
+    if model.startswith("HANG"):
+        # the extracted model did not answer in time (a very large expansion on a loaded machine): no comparison with it; S still judges
+        stats["model_timeouts"] = stats.get("model_timeouts", 0) + 1
+        if dom and impl != spec:
+            return ("input", "implementation differs from the mathematical expansion (S)"), spec
+        if impl.startswith("CRASH") or impl.startswith("HANG"):
+            return ("input", "implementation faults on a host expression"), spec
+        return None, spec
     if dom and impl != spec:
         bad = ("input", "implementation differs from the mathematical expansion (S)")
     elif impl != model:
